@@ -13,6 +13,9 @@
 //                                     OK <analyzer-errors> <hex-sv> <hex-map-json>      | ERR (parse error)
 //   M <nl> <hex-text>                 veryl_migrator: old-grammar Parser + Migrator::migrate:
 //                                     OK <hex-migrated-text>                            | ERR <msg> (old parser rejects)
+//   O <hex-text>                      old-grammar parse; dump what the Migrator's walker meets, in order:
+//                                     OK <n> {<kind:t|c> <dropped:0|1> <line> <col> <hex-text>}   | ERR
+//                                     (dropped = the `: Type` tokens of a for statement)
 //   PANIC <msg>                       the call panicked
 use std::io::{self, BufRead, Write};
 use veryl_parser::Parser;
@@ -159,6 +162,64 @@ fn do_migrate(nl: &str, text: &str) -> String {
     format!("OK {}", hex(mig.as_str()))
 }
 
+#[derive(Default)]
+struct OldCollect {
+    out: Vec<(char, bool, veryl_migrator::veryl_token::Token)>,
+    dropping: bool,
+}
+
+impl veryl_migrator::veryl_walker::VerylWalker for OldCollect {
+    fn veryl_token(&mut self, arg: &veryl_migrator::veryl_token::VerylToken) {
+        self.out.push(('t', self.dropping, arg.token));
+        for c in &arg.comments {
+            self.out.push(('c', self.dropping, *c));
+        }
+    }
+
+    fn for_statement(&mut self, arg: &veryl_migrator::veryl_grammar_trait::ForStatement) {
+        self.r#for(&arg.r#for);
+        self.identifier(&arg.identifier);
+        self.dropping = true;
+        self.colon(&arg.colon);
+        self.scalar_type(&arg.scalar_type);
+        self.dropping = false;
+        self.r#in(&arg.r#in);
+        if let Some(ref x) = arg.for_statement_opt {
+            self.rev(&x.rev);
+        }
+        self.range(&arg.range);
+        if let Some(ref x) = arg.for_statement_opt0 {
+            self.step(&x.step);
+            self.assignment_operator(&x.assignment_operator);
+            self.expression(&x.expression);
+        }
+        self.statement_block(&arg.statement_block);
+    }
+}
+
+fn do_old_tokens(text: &str) -> String {
+    use veryl_migrator::veryl_walker::VerylWalker;
+    let parser = match veryl_migrator::Parser::parse(text, &"case.veryl") {
+        Ok(p) => p,
+        Err(_) => return "ERR".to_string(),
+    };
+    let mut c = OldCollect::default();
+    c.veryl(&parser.veryl);
+    let mut s = format!("OK {}", c.out.len());
+    for (k, d, t) in &c.out {
+        let tx = resource_table::get_str_value(t.text).unwrap_or_default();
+        s.push_str(&format!(
+            " {} {} {} {} {}",
+            k,
+            if *d { 1 } else { 0 },
+            t.line,
+            t.column,
+            hex(&tx)
+        ));
+    }
+    s
+}
+
 fn run_case(line: &str) -> String {
     let f: Vec<&str> = line.split_whitespace().collect();
     match f[0] {
@@ -171,6 +232,7 @@ fn run_case(line: &str) -> String {
         ),
         "E" => do_emit(&metadata(f[1], f[2], f[3], f[4], f[5]), &unhex(f[6])),
         "M" => do_migrate(f[1], &unhex(f[2])),
+        "O" => do_old_tokens(&unhex(f[1])),
         x => panic!("bad mode {x}"),
     }
 }
